@@ -52,6 +52,13 @@ File::Mode mode_of(const std::string &m) {
     return File::Mode::AppendText;
 }
 
+int open_fds() {
+    int n = 0;
+    std::error_code ec;
+    for (auto it = fs::directory_iterator("/proc/self/fd", ec); !ec && it != fs::directory_iterator(); it.increment(ec)) ++n;
+    return n;
+}
+
 // round trip of an arbitrary (seeded) byte string: written in chunks through File, read back in every way File offers
 void run_roundtrip(const Execution &ex) {
     std::string base = ex.cfg.str("dir", "/tmp") + "/r-" + ex.id + "-" + std::to_string(getpid());
@@ -74,19 +81,32 @@ void run_roundtrip(const Execution &ex) {
     }
     bool append_second = ex.cfg.num("append", 0) != 0;
     bool text = ex.cfg.num("text", 0) != 0;
+    // companion=1: a second, unrelated File is open and written to at the same time (the two must not share anything)
+    bool companion = ex.cfg.num("companion", 0) != 0;
+    std::string path2 = base + "/companion";
+    std::string data2(data.rbegin(), data.rend());
+    for (auto &c : data2) c = (char) (c ^ 0x5A);
     size_t first = append_second ? len / 2 : len;
     std::string problem;
     try {
         {   // write (truncating), in random chunk sizes, alternating the two write overloads
             File f(path, text ? File::Mode::WriteText : File::Mode::Write);
-            size_t off = 0;
+            File f2;
+            if (companion) f2.open(tulz::Path(path2), File::Mode::Write);
+            size_t off = 0, off2 = 0;
             int k = 0;
             while (off < first) {
                 size_t c = std::min<size_t>(first - off, 1 + next() % 9000);
                 size_t n = (k++ % 2) ? f.write(data.substr(off, c)) : f.write(data.data() + off, c);
                 if (n != c) problem = "write() returned " + std::to_string(n) + " for " + std::to_string(c) + " bytes";
                 off += c;
+                if (companion && off2 < data2.size()) {
+                    size_t c2 = std::min<size_t>(data2.size() - off2, 1 + next() % 7000);
+                    f2.write(data2.data() + off2, c2);
+                    off2 += c2;
+                }
             }
+            if (companion && off2 < data2.size()) f2.write(data2.data() + off2, data2.size() - off2);
             if (f.size() != first) problem = "size() of the handle being written = " + std::to_string(f.size()) + ", written " + std::to_string(first);
         }
         if (append_second) {
@@ -119,6 +139,33 @@ void run_roundtrip(const Execution &ex) {
                 std::string tail = f.readStr();   // read() always returns the whole file
                 diff(tail, "readStr() after a seek");
             }
+        }
+        if (companion && problem.empty()) {
+            // a reader of the blob stays open while yet another File is written and closed
+            File r(path, File::Mode::Read);
+            {
+                File w(base + "/third", File::Mode::Write);
+                w.write(std::string(5000, 'q'));
+            }
+            diff(r.readStr(), "readStr() of a reader that was open while another File was written");
+            File c(path2, File::Mode::Read);
+            std::string back = c.readStr();
+            if (back != data2 && problem.empty()) problem = "the companion file written at the same time reads back differently (" + std::to_string(back.size()) + " of " + std::to_string(data2.size()) + " bytes)";
+        }
+        if (problem.empty()) {
+            // descriptors: opening and closing the same file again and again must not consume more and more of them
+            int c0 = open_fds();
+            int grow = 0, prev = c0;
+            for (int k = 0; k < 3; ++k) {
+                {
+                    File f(path, File::Mode::Read);
+                    (void) f.size();
+                }
+                int now = open_fds();
+                if (now > prev) ++grow;
+                prev = now;
+            }
+            if (grow == 3) problem = "every open()/close() of the file leaves more descriptors open (" + std::to_string(c0) + " -> " + std::to_string(prev) + "): enough round trips exhaust them and files can no longer be read back";
         }
     } catch (const tulz::Exception &e) {
         problem = std::string("unexpected exception: ") + e.what();
